@@ -153,12 +153,13 @@ Proof.
   - destruct (ledger_step own e) as [own1|] eqn:E; [|discriminate].
     assert (Hstep : NoDup own1 /\ opens_of fd e + (if memb fd own then 1 else 0) =
                                   closes_of fd e + (if memb fd own1 then 1 else 0)).
-    { destruct e as [p [n|] | n ok | [n|] off len r | [n|] ok | n | n]; simpl in E; simpl;
+    { destruct e as [p [n|] | n ok | n ok | [n|] off len r | [n|] ok | n | n]; simpl in E; simpl;
         try (inversion E; subst; split; auto; lia); try discriminate.
       - destruct (memb n own) eqn:M; [discriminate|]. inversion E; subst. apply memb_false in M.
         split. now constructor. simpl. destruct (n =? fd) eqn:N.
         + apply Nat.eqb_eq in N; subst. apply memb_false in M. rewrite M. rewrite Nat.eqb_refl. simpl. lia.
         + rewrite Nat.eqb_sym in N. rewrite N. simpl. lia.
+      - destruct (memb n own); inversion E; subst. split; auto.
       - destruct (memb n own); inversion E; subst. split; auto.
       - destruct (memb n own); inversion E; subst. split; auto.
       - destruct (memb n own) eqn:M; [|discriminate]. inversion E; subst. split. now apply NoDup_filter.
@@ -365,17 +366,27 @@ Proof.
     assert (Lok : forall b, Led (fd :: own) (log o1 (ELock fd b))).
     { intros b. eapply (Led_same_tbl (fd :: own) (fd :: own) o1 _ [ELock fd b]); eauto. simpl.
       now rewrite Nat.eqb_refl. }
-    assert (Good : Led (fd :: own) (set_fs (log o1 (ELock fd true)) (upd (fs (log o1 (ELock fd true))) p (Some [])))).
-    { eapply Led_ext; [apply (Lok true)| | | |]; reflexivity. }
-    destruct (cscr o (nopen o)); cbv zeta in H; inversion H; subst.
-    + exists fd. split; [reflexivity|]. split; [exact Good|]. split; [exact Hnot|]. split; simpl; auto.
-    + exists fd. split; [reflexivity|]. split; [exact Good|]. split; [exact Hnot|]. split; simpl; auto.
-    + split.
-      * pose proof (Led_close _ _ fd (Lok false) (or_introl eq_refl)) as Lc.
+    assert (Ltr : forall b, Led (fd :: own) (log (log o1 (ELock fd true)) (ETrunc fd b))).
+    { intros b. eapply (Led_same_tbl (fd :: own) (fd :: own) (log o1 (ELock fd true)) _ [ETrunc fd b]); eauto. simpl.
+      now rewrite Nat.eqb_refl. }
+    assert (Good : Led (fd :: own) (set_fs (log (log o1 (ELock fd true)) (ETrunc fd true))
+                                           (upd (fs (log (log o1 (ELock fd true)) (ETrunc fd true))) p (Some [])))).
+    { eapply Led_ext; [apply (Ltr true)| | | |]; reflexivity. }
+    (* a failure after the open: the descriptor is closed again, the device holds what it held before *)
+    assert (Closed : forall o2, Led (fd :: own) o2 -> tbl o2 = tbl o1 ->
+                                Led own (bump_fail (os_close o2 (Some fd))) /\
+                                nfail (bump_fail (os_close o2 (Some fd))) = S (nfail o2)).
+    { intros o2 L2 Ht2. split.
+      - pose proof (Led_close _ _ fd L2 (or_introl eq_refl)) as Lc.
         simpl in Lc. rewrite Nat.eqb_refl in Lc. simpl in Lc.
         rewrite filter_neq_notin in Lc by auto.
         eapply Led_ext; [exact Lc| | | |]; reflexivity.
-      * simpl. rewrite Hlk. simpl. lia.
+      - simpl. rewrite Ht2, Hlk. reflexivity. }
+    destruct (cscr o (nopen o)); cbv zeta in H; inversion H; subst.
+    + exists fd. split; [reflexivity|]. split; [exact Good|]. split; [exact Hnot|]. split; simpl; auto.
+    + exists fd. split; [reflexivity|]. split; [exact Good|]. split; [exact Hnot|]. split; simpl; auto.
+    + destruct (Closed _ (Lok false) eq_refl) as [Lc Nc]. split; [exact Lc|]. etransitivity; [exact Nc|]. simpl. lia.
+    + destruct (Closed _ (Ltr false) eq_refl) as [Lc Nc]. split; [exact Lc|]. etransitivity; [exact Nc|]. simpl. lia.
   - inversion H; subst. split.
     + eapply Led_open_fail in E; eauto. eapply Led_ext; [exact E| | | |]; reflexivity.
     + apply os_open_fail in E. destruct E as (_ & _ & _ & _ & Hf & _). simpl. lia.
